@@ -337,8 +337,34 @@ class Index:
                 return (v.func.id, ir.from_ast(v.args[0], {}), False)
             return None
 
+        literals = {}
+        if init is not None:
+            for n in ast.walk(init.node):
+                if isinstance(n, ast.Assign) and len(n.targets) == 1 and isinstance(n.targets[0], ast.Name) and \
+                        isinstance(n.value, (ast.Tuple, ast.List)) and n.value.elts and \
+                        all(isinstance(e, (ast.Tuple, ast.List)) for e in n.value.elts):
+                    literals[n.targets[0].id] = n.value
+
+        class _Sub(ast.NodeTransformer):
+            def __init__(self, m):
+                self.m = m
+
+            def visit_Name(self, node):
+                return self.m.get(node.id, node) if isinstance(node.ctx, ast.Load) else node
+
         def visit(stmts, conds):
             for st in stmts:
+                if isinstance(st, ast.For):
+                    lit = st.iter if isinstance(st.iter, (ast.Tuple, ast.List)) else literals.get(st.iter.id) if isinstance(st.iter, ast.Name) else None
+                    if lit is not None and isinstance(st.target, ast.Tuple) and all(isinstance(t, ast.Name) for t in st.target.elts) and \
+                            all(isinstance(e, (ast.Tuple, ast.List)) and len(e.elts) == len(st.target.elts) for e in lit.elts):
+                        # a loop over a literal table: unroll it (constant propagation of the loop variables)
+                        import copy
+                        for e in lit.elts:
+                            m = {t.id: v for t, v in zip(st.target.elts, e.elts)}
+                            body = [ast.fix_missing_locations(_Sub(m).visit(copy.deepcopy(b))) for b in st.body]
+                            visit(body, conds)
+                        continue
                 if isinstance(st, ast.If):
                     c = ir.from_ast(st.test, {})
                     visit(st.body, conds + ((c, True),))
@@ -362,10 +388,19 @@ class Index:
                             out.setdefault(n.elts[0].value, []).append((fl[0], fl[1], conds, n.lineno, fl[2]))
                 if isinstance(st, ast.Assign) and len(st.targets) == 1 and isinstance(st.targets[0], ast.Subscript):
                     t = st.targets[0]
+                    key = None
                     if isinstance(t.slice, ast.Constant) and isinstance(t.slice.value, str):
+                        key = t.slice.value
+                    elif isinstance(t.slice, ast.Attribute) and t.slice.attr == "value" and isinstance(t.slice.value, ast.Attribute):
+                        # <Enum>.<MEMBER>.value
+                        en = self.enums.get(t.slice.value.value.attr if isinstance(t.slice.value.value, ast.Attribute) else
+                                            getattr(t.slice.value.value, "id", None))
+                        if en is not None and isinstance(en.get(t.slice.value.attr), str):
+                            key = en[t.slice.value.attr]
+                    if key is not None:
                         fl = flow_of(st.value)
                         if fl:
-                            out.setdefault(t.slice.value, []).append((fl[0], fl[1], conds, st.lineno, fl[2]))
+                            out.setdefault(key, []).append((fl[0], fl[1], conds, st.lineno, fl[2]))
         if init is not None:
             visit(init.node.body, ())
         # inherited members (FieldAction adds "port")
